@@ -292,8 +292,8 @@ type c18Session struct {
 	onClose []func()
 	closed  bool
 	written []c18Written
-	failPng bool // next empty CON write fails
-	port    int  // remote port (distinct per connection when several share one pkg/connections table)
+	failPng bool   // next empty CON write fails
+	port    int    // remote port (distinct per connection when several share one pkg/connections table)
 	onWrite func() // called (outside the lock) after every successful write: the witness "the datagram is out"
 }
 
